@@ -67,6 +67,10 @@ func evaluateBitflagExpSigned[T signedInteger](n bitFlagExprNode, opts []EnumOpt
 		if err != nil {
 			return 0, err
 		}
+		if rhs < 0 && (v.op == tokenKindDoubleCaretLeft || v.op == tokenKindDoubleCaretRight) {
+			// Go panics on a negative shift count
+			return 0, fmt.Errorf("negative shift count %d in bitflag expression", rhs)
+		}
 		switch v.op {
 		// TODO: confirm that the behavior of these operators in Go
 		// matches the expected behavior in bebop
